@@ -131,7 +131,7 @@ var (
 	unicodeNames = []string{"日本語", "ディレクトリ", "é", "e\u0301", "שלום", "𝔘𝔫𝔦", "😀", "a\u0085b", "a\u2028b", "\ufeffa", "a\u00a0", "\u3000a", "ß", "İ", "ǆ", "a\u200bb", "\u202ea", "🧑\u200d🚀", "\u0085", "\u00a0x"}
 	controlNames = []string{"a\x00b", "\x01", "a\x07", "\x1b[31mx", "a\x7f", "\x08a", "a\x0bb", "a\x0cb", "a\rb", "\x1f", "a\x00"}
 	quoteNames   = []string{"\"", "'", ":", "#", "\\", "{", "[", "null", "true", "1e3", "~", "- a", "key: v", "a: b", "\"q\"", "'s'", "a\\nb", "{a}", "[1]", "&x", "*x", "!t", "%d", "@", "`", "|", ">", "0x1f", "1", "-1", ".5", "no", "yes", "y", "N", "on", "off", "2001-01-01", "a #c", "a,b", "?", "= x", "[[t]]", "a = 1", "\"\"\"", "'''", "1_000", "inf", "nan", "<<", "=", "\\u0041"}
-	extNames     = []string{"x.go", "Makefile", ".go", "a.go.bak", "main.go", "README.md", "go", "a.mod", "o", "x.o", "a.", ".", "..go", "Makefile.go", "lego"}
+	extNames     = []string{"proj.tar.gz", "x.d.ts", "a.gz", "tar.gz", "b.min.css", "x.go", "Makefile", ".go", "a.go.bak", "main.go", "README.md", "go", "a.mod", "o", "x.o", "a.", ".", "..go", "Makefile.go", "lego"}
 	hostileNames = []string{"..", ".", "a/b", "/abs", "../x", "a/../../x", "a/", "/", "./a", "a//b", "../../e"}
 )
 
